@@ -152,7 +152,7 @@ Definition step (s : cst) (e : event) : option cst :=
       | EAdd t k =>
           match p with
           | PReadd nb t' k' =>
-              if Qeq_bool t t' && Z.eqb k k' then Some (do_add s t' k (PLoop3 nb)) else None
+              if Qeq_bool t t' && Z.eqb k k' then Some (do_add s t k (PLoop3 nb)) else None
           | _ => if client_ok p then Some (do_add s t k p) else None
           end
       | ENotify SClear =>
@@ -577,25 +577,41 @@ Fixpoint a_mon_no_oversleep (s : ast) (evs : list aevent) : bool :=
   | e :: r => match astep s e with Some s' => a_mon_no_oversleep s' r | None => true end
   end.
 
-(* trace monitors for AppClock *)
-Fixpoint a_mon_never_early (now : option Q) (evs : list aevent) : bool :=
+(* trace monitors for AppClock.  ANotify / AStop are performed under the other lock and may be
+   logged anywhere between two events of the tick. *)
+Fixpoint a_mon_never_early (now : option Q) (intick : bool) (evs : list aevent) : bool :=
   match evs with
   | [] => true
-  | ATickBegin :: ATime t :: r => a_mon_never_early (Some t) r
-  | APop t _ :: r => match now with Some b => Qle_bool t b && a_mon_never_early now r | None => false end
-  | _ :: r => a_mon_never_early now r
+  | ATickBegin :: r => a_mon_never_early now true r
+  | ATime t :: r => if intick then a_mon_never_early (Some t) false r
+                    else a_mon_never_early now false r
+  | APop t _ :: r => match now with
+                     | Some b => Qle_bool t b && a_mon_never_early now intick r
+                     | None => false
+                     end
+  | _ :: r => a_mon_never_early now intick r
   end.
-(* drifting re-schedule: numeric result d is followed by a time read t' and add(t' + d) *)
-Fixpoint a_mon_resched (evs : list aevent) : bool :=
+(* drifting re-schedule: a numeric result d is followed (among the events under _sched_lock)
+   by a time read t' and then add(t' + d) *)
+Fixpoint a_mon_resched (want : option (Q * task * option Q)) (evs : list aevent) : bool :=
   match evs with
   | [] => true
+  | ANotify :: r | AStop :: r => a_mon_resched want r
   | AAwakeEnd k (RDelta d) :: r =>
-      match r with
-      | ATime t' :: AAdd t'' k' :: _ => Qeq_bool t'' (t' + d) && Z.eqb k k' && a_mon_resched r
-      | [] | [ATime _] => true
-      | _ => false
+      match want with None => a_mon_resched (Some (d, k, None)) r | Some _ => false end
+  | ATime t' :: r =>
+      match want with
+      | Some (d, k, None) => a_mon_resched (Some (d, k, Some t')) r
+      | Some _ => false
+      | None => a_mon_resched None r
       end
-  | _ :: r => a_mon_resched r
+  | AAdd t'' k' :: r =>
+      match want with
+      | Some (d, k, Some t') => Qeq_bool t'' (t' + d) && Z.eqb k k' && a_mon_resched None r
+      | Some _ => false
+      | None => a_mon_resched None r
+      end
+  | _ :: r => match want with None => a_mon_resched None r | Some _ => false end
   end.
 Fixpoint a_mon_once (l : mpend) (n : nat) (woken : list task) (evs : list aevent) : bool :=
   match evs with
